@@ -71,10 +71,12 @@ func (r *BatchedPrivateTokenRequest) Unmarshal(data []byte) bool {
 		return false
 	}
 
-	l, offset := quicwire.ConsumeVarint(data[3:])
-	s.Skip(offset)
-	blindedRequests := make([]byte, l)
-	if !s.ReadBytes(&blindedRequests, len(blindedRequests)) {
+	l, offset := quicwire.ConsumeVarint(s)
+	if offset < 0 || !s.Skip(offset) || l > uint64(len(s)) {
+		return false
+	}
+	var blindedRequests []byte
+	if !s.ReadBytes(&blindedRequests, int(l)) {
 		return false
 	}
 	if len(blindedRequests)%32 != 0 {
